@@ -405,7 +405,7 @@ namespace {
       FAC("make_using_declaration_s", "Scope_ref q", "Expr", auto& s = c.as<ipr::Scope_ref>(); auto m = c.num();
           return L.make_using_declaration(s, static_cast<ipr::Using_declaration::Designator::Mode>(m % 3));)
       FAC("make_using_directive", "Scope T", "Expr", auto& s = c.as<ipr::Scope>(); auto& t = c.T(); return L.make_using_directive(s, t);)
-      FAC("make_phased_evaluation", "E q", "Expr", auto& e = c.E(); auto p = c.num(); return L.make_phased_evaluation(e, static_cast<ipr::Phases>(1u << (p % 12)));)
+      FAC("make_phased_evaluation", "E q", "Expr", auto& e = c.E(); auto p = c.num(); return L.make_phased_evaluation(e, static_cast<ipr::Phases>(p & 0x7ff));)
       // ---- generative, created together with their regions / scopes / parameter lists
       FAC("make_class", "R", "Class", auto& r = c.R(); return L.make_class(r);)
       FAC("make_union", "R", "Udt", auto& r = c.R(); return L.make_union(r);)
@@ -572,6 +572,7 @@ namespace {
    {
       auto ov = sc[n];
       if (not ov) return { nullptr, nullptr };
+      (void) cx->ob.ref(ov.get());          // an overload set a client has been answered is a node like any other: observed from now on
       auto d = ov.get()[t];
       if (found and d) *found = &d.get();
       return { dynamic_cast<const void*>(&ov.get()), d ? dynamic_cast<const void*>(&d.get()) : nullptr };
